@@ -1,5 +1,165 @@
+import BlockCiphers.Proofs.AesNi
+import BlockCiphers.Proofs.AesSpec
+import BlockCiphers.Proofs.AesFs64Hazmat
+import BlockCiphers.Proofs.AesFs32Hazmat
 /-
-C17 — theorem file (property theorems only).  Filled in as the models it needs are merged; see DESIGN §7 C17.
+C17 — AES hazmat round functions equal the FIPS-197 round transformations
+GENERATED statement file (tools/gen_thm.py): every theorem below restates, verbatim, a theorem of a Proofs/ module
+and is proved by applying it.  ONLY property theorems and non-vacuity examples live in Thm/.
+AES-NI implementation and the fixslice64 / fixslice32 software implementations: full.  ARMv8: not modelled.
 -/
-namespace BC.Thm.C17
-end BC.Thm.C17
+
+namespace BC.AesNi
+open BC BC.X86 BC.Spec.Aes
+theorem C17.cipher_round_eq (b k : BitVec 128) :
+    cipher_round b k = mixColumns (shiftRows (subBytes b)) ^^^ k :=
+  _root_.BC.AesNi.cipher_round_eq b k
+end BC.AesNi
+
+namespace BC.AesNi
+open BC BC.X86 BC.Spec.Aes
+theorem C17.equiv_inv_cipher_round_eq (b k : BitVec 128) :
+    equiv_inv_cipher_round b k = invMixColumns (invShiftRows (invSubBytes b)) ^^^ k :=
+  _root_.BC.AesNi.equiv_inv_cipher_round_eq b k
+end BC.AesNi
+
+namespace BC.AesNi
+open BC BC.X86 BC.Spec.Aes
+theorem C17.mix_columns_eq (b : BitVec 128) : mix_columns b = mixColumns b :=
+  _root_.BC.AesNi.mix_columns_eq b
+end BC.AesNi
+
+namespace BC.AesNi
+open BC BC.X86 BC.Spec.Aes
+theorem C17.inv_mix_columns_eq (b : BitVec 128) : inv_mix_columns b = invMixColumns b :=
+  _root_.BC.AesNi.inv_mix_columns_eq b
+end BC.AesNi
+
+namespace BC.AesNi
+open BC BC.X86 BC.Spec.Aes
+theorem C17.inv_mix_columns_mix_columns (b : BitVec 128) : inv_mix_columns (mix_columns b) = b :=
+  _root_.BC.AesNi.inv_mix_columns_mix_columns b
+end BC.AesNi
+
+namespace BC.AesNi
+open BC BC.X86 BC.Spec.Aes
+theorem C17.mix_columns_inv_mix_columns (b : BitVec 128) : mix_columns (inv_mix_columns b) = b :=
+  _root_.BC.AesNi.mix_columns_inv_mix_columns b
+end BC.AesNi
+
+namespace BC.AesNi
+open BC BC.X86 BC.Spec.Aes
+/-- `cipher_round_par` on 8 blocks and 8 round keys = 8 independent `cipher_round` calls -/
+theorem C17.cipher_round_par_eq (b0 b1 b2 b3 b4 b5 b6 b7 k0 k1 k2 k3 k4 k5 k6 k7 : BitVec 128) :
+    cipher_round_par [b0, b1, b2, b3, b4, b5, b6, b7] [k0, k1, k2, k3, k4, k5, k6, k7] =
+      [cipher_round b0 k0, cipher_round b1 k1, cipher_round b2 k2, cipher_round b3 k3,
+       cipher_round b4 k4, cipher_round b5 k5, cipher_round b6 k6, cipher_round b7 k7] :=
+  _root_.BC.AesNi.cipher_round_par_eq b0 b1 b2 b3 b4 b5 b6 b7 k0 k1 k2 k3 k4 k5 k6 k7
+end BC.AesNi
+
+namespace BC.AesNi
+open BC BC.X86 BC.Spec.Aes
+theorem C17.equiv_inv_cipher_round_par_eq (b0 b1 b2 b3 b4 b5 b6 b7 k0 k1 k2 k3 k4 k5 k6 k7 : BitVec 128) :
+    equiv_inv_cipher_round_par [b0, b1, b2, b3, b4, b5, b6, b7] [k0, k1, k2, k3, k4, k5, k6, k7] =
+      [equiv_inv_cipher_round b0 k0, equiv_inv_cipher_round b1 k1, equiv_inv_cipher_round b2 k2,
+       equiv_inv_cipher_round b3 k3, equiv_inv_cipher_round b4 k4, equiv_inv_cipher_round b5 k5,
+       equiv_inv_cipher_round b6 k6, equiv_inv_cipher_round b7 k7] :=
+  _root_.BC.AesNi.equiv_inv_cipher_round_par_eq b0 b1 b2 b3 b4 b5 b6 b7 k0 k1 k2 k3 k4 k5 k6 k7
+end BC.AesNi
+
+namespace BC.Spec.Aes
+theorem C17.invMixColumns_mixColumns (s : BitVec 128) : invMixColumns (mixColumns s) = s :=
+  _root_.BC.Spec.Aes.invMixColumns_mixColumns s
+end BC.Spec.Aes
+
+namespace BC.Spec.Aes
+theorem C17.mixColumns_invMixColumns (s : BitVec 128) : mixColumns (invMixColumns s) = s :=
+  _root_.BC.Spec.Aes.mixColumns_invMixColumns s
+end BC.Spec.Aes
+
+namespace BC.AesFs64
+open BC.Spec.Aes
+theorem C17.fs64_hazmat_cipher_round (block round_key : BitVec 128) :
+    hazmat.cipher_round block round_key = mixColumns (shiftRows (subBytes block)) ^^^ round_key :=
+  _root_.BC.AesFs64.hazmat_cipher_round block round_key
+end BC.AesFs64
+
+namespace BC.AesFs64
+open BC.Spec.Aes
+theorem C17.fs64_hazmat_equiv_inv_cipher_round (block round_key : BitVec 128) :
+    hazmat.equiv_inv_cipher_round block round_key =
+      invMixColumns (invShiftRows (invSubBytes block)) ^^^ round_key :=
+  _root_.BC.AesFs64.hazmat_equiv_inv_cipher_round block round_key
+end BC.AesFs64
+
+namespace BC.AesFs64
+open BC.Spec.Aes
+theorem C17.fs64_hazmat_mix_columns (block : BitVec 128) : hazmat.mix_columns block = mixColumns block :=
+  _root_.BC.AesFs64.hazmat_mix_columns block
+end BC.AesFs64
+
+namespace BC.AesFs64
+open BC.Spec.Aes
+theorem C17.fs64_hazmat_inv_mix_columns (block : BitVec 128) : hazmat.inv_mix_columns block = invMixColumns block :=
+  _root_.BC.AesFs64.hazmat_inv_mix_columns block
+end BC.AesFs64
+
+namespace BC.AesFs64
+open BC.Spec.Aes
+theorem C17.fs64_hazmat_cipher_round_par4 (chunk keys : Batch) :
+    hazmat.cipher_round_par4 chunk keys =
+      ⟨mixColumns (shiftRows (subBytes chunk.b0)) ^^^ keys.b0, mixColumns (shiftRows (subBytes chunk.b1)) ^^^ keys.b1,
+       mixColumns (shiftRows (subBytes chunk.b2)) ^^^ keys.b2, mixColumns (shiftRows (subBytes chunk.b3)) ^^^ keys.b3⟩ :=
+  _root_.BC.AesFs64.hazmat_cipher_round_par4 chunk keys
+end BC.AesFs64
+
+namespace BC.AesFs64
+open BC.Spec.Aes
+theorem C17.fs64_hazmat_equiv_inv_cipher_round_par4 (chunk keys : Batch) :
+    hazmat.equiv_inv_cipher_round_par4 chunk keys =
+      ⟨invMixColumns (invShiftRows (invSubBytes chunk.b0)) ^^^ keys.b0,
+       invMixColumns (invShiftRows (invSubBytes chunk.b1)) ^^^ keys.b1,
+       invMixColumns (invShiftRows (invSubBytes chunk.b2)) ^^^ keys.b2,
+       invMixColumns (invShiftRows (invSubBytes chunk.b3)) ^^^ keys.b3⟩ :=
+  _root_.BC.AesFs64.hazmat_equiv_inv_cipher_round_par4 chunk keys
+end BC.AesFs64
+
+namespace BC.AesFs64
+open BC.Spec.Aes
+/-- the parallel form is the single-block form in every lane -/
+theorem C17.fs64_hazmat_par4_eq_single (chunk keys : Batch) :
+    hazmat.cipher_round_par4 chunk keys =
+      ⟨hazmat.cipher_round chunk.b0 keys.b0, hazmat.cipher_round chunk.b1 keys.b1,
+       hazmat.cipher_round chunk.b2 keys.b2, hazmat.cipher_round chunk.b3 keys.b3⟩ ∧
+    hazmat.equiv_inv_cipher_round_par4 chunk keys =
+      ⟨hazmat.equiv_inv_cipher_round chunk.b0 keys.b0, hazmat.equiv_inv_cipher_round chunk.b1 keys.b1,
+       hazmat.equiv_inv_cipher_round chunk.b2 keys.b2, hazmat.equiv_inv_cipher_round chunk.b3 keys.b3⟩ :=
+  _root_.BC.AesFs64.hazmat_par4_eq_single chunk keys
+end BC.AesFs64
+
+namespace BC.AesFs32
+open BC.Spec.Aes
+theorem C17.fs32_hazmat_cipher_round (block round_key : BitVec 128) :
+    hazmat.cipher_round block round_key = mixColumns (shiftRows (subBytes block)) ^^^ round_key :=
+  _root_.BC.AesFs32.hazmat_cipher_round block round_key
+end BC.AesFs32
+
+namespace BC.AesFs32
+open BC.Spec.Aes
+theorem C17.fs32_hazmat_equiv_inv_cipher_round (block round_key : BitVec 128) :
+    hazmat.equiv_inv_cipher_round block round_key =
+      invMixColumns (invShiftRows (invSubBytes block)) ^^^ round_key :=
+  _root_.BC.AesFs32.hazmat_equiv_inv_cipher_round block round_key
+end BC.AesFs32
+
+namespace BC.AesFs32
+open BC.Spec.Aes
+theorem C17.fs32_hazmat_mix_columns (block : BitVec 128) : hazmat.mix_columns block = mixColumns block :=
+  _root_.BC.AesFs32.hazmat_mix_columns block
+end BC.AesFs32
+
+namespace BC.AesFs32
+open BC.Spec.Aes
+theorem C17.fs32_hazmat_inv_mix_columns (block : BitVec 128) : hazmat.inv_mix_columns block = invMixColumns block :=
+  _root_.BC.AesFs32.hazmat_inv_mix_columns block
+end BC.AesFs32
